@@ -378,8 +378,9 @@ class Gen:
             if j == 0:
                 init = self.vardecl(1, in_for=True)
                 # `for` initialisers declare a single primitive variable
-                init = ("vardecl", ("prim", self.r.choice(["int", "float", "long", "boolean", "bit", "char", "string"])),
-                        self.name(), self.literal())
+                init = ("vardecl",) + (("final",) if self.r.random() < 0.25 else ()) + (
+                    ("prim", self.r.choice(["int", "float", "long", "boolean", "bit", "char", "string"])),
+                    self.name(), self.literal())
             elif j == 1:
                 init = ("expr", ("assign", self.name(), self.literal()))
             return ("for", init, self.cond(1), self.r.choice([
